@@ -21,7 +21,6 @@ package store
 //@ pure func serverVerdict(s any) error
 // closed: upload streams the client has closed cleanly (CloseAndRecv called); the server stores
 // an upload only if its stream was closed cleanly and its verdict is nil.
-//@ ghost field (world).closed set[any]
 //@ iface StoreV1Client.SetFile
 //@   trusted
 //@   ensures stream: (result1 == nil ==> result0 != nil && !world.closed[result0]) && (result1 != nil ==> result0 == nil)
